@@ -173,8 +173,12 @@ def guard_table(c, gen, ln, atoms, consistent=lambda a: True):
         k = 0
         while k < len(af) and k < len(frames) and af[k] == frames[k]:
             k += 1
-        # executed before the result on this path whenever its remaining frames hold: then its test must hold
-        pre.append((af[k:], c.norm(t)))
+        # executed before the result on this path whenever its remaining frames hold: then its test must hold.  An assert
+        # that says nothing about the atoms (an arithmetic sanity check) does not bear on the guard
+        tn = c.norm(t)
+        if not any(x in atoms for x in ir.walk(tn)) and tn != ('const', False):
+            continue
+        pre.append((af[k:], tn))
     out = {}
     import itertools
     for vals in itertools.product((False, True), repeat=len(atoms)):
@@ -222,7 +226,18 @@ def assert_fails_somewhere(c, atoms, vals):
     return False
 
 
+def translate_owned(idx):
+    """MemoryMap._translate still exists with its pinned interface; otherwise the callers are read with it opened in place."""
+    try:
+        fi = idx.find_func("MemoryMap._translate")
+    except Exception:
+        return False
+    return {"resource_info", "window_range"} <= set(fi.params)
+
+
 def translate(rep, idx):
+    if not translate_owned(idx):
+        return                                          # checked per caller (all_resources / find_resource)
     c = get_fn(idx, "MemoryMap._translate")
     site = c.fi.site
     rep.analysed(site)
@@ -230,27 +245,49 @@ def translate(rep, idx):
     if len(rets) != 1 or rets[0][0] != 'call' or not ir.show(rets[0][1]).endswith("ResourceInfo") or len(rets[0][2]) != 5:
         rep.unk("C03.2", site, "_translate() result", f"returns {[ir.show(r)[:80] for r in rets]}")
         return
-    res, path, start, end, width = rets[0][2]
-    leaves = {"resource_info.start": 'aw', "resource_info.end": 'aw', "window_range.start": 'amP', "window_range.stop": 'amP',
-              "window_range.step": 'r', "resource_info.width": 'bw', "window._data_width": 'bw', "window.data_width": 'bw'}
-    P = c.parse
-    typed(rep, "C03.2", site, "translated start = resource start / ratio + window base", start,
+    translate_checks(rep, c, site, rets[0][2], {})
+
+
+def translate_checks(rep, c, site, tup, env, where=""):
+    """The five fields of a translated ResourceInfo.  `env` maps the role names (resource_info, window, window_name,
+    window_range) to the expressions that play them at this site (identity inside _translate itself)."""
+    res, path, start, end, width = tup
+
+    def P(text):
+        return c.norm(ir.parse(text, env))
+    RI, WR = P("resource_info"), P("window_range")
+    leaves = {ir.show(P("resource_info.start")): 'aw', ir.show(P("resource_info.end")): 'aw', ir.show(P("window_range.start")): 'amP',
+              ir.show(P("window_range.stop")): 'amP', ir.show(P("window_range.step")): 'r', ir.show(P("resource_info.width")): 'bw',
+              ir.show(P("window._data_width")): 'bw', ir.show(P("window.data_width")): 'bw'}
+    typed(rep, "C03.2", site, "translated start = resource start / ratio + window base" + where, start,
           P("(resource_info.start // window_range.step) + window_range.start"), 'amP', leaves,
-          depends=[("resource_info", "different resources of the window's map start at different addresses"),
-                   ("window_range", "the same map seen through windows at different bases must report different addresses")])
+          depends=[(RI, "different resources of the window's map start at different addresses"),
+                   (WR, "the same map seen through windows at different bases must report different addresses")])
     size = P("(resource_info.end - resource_info.start) // window_range.step")
-    typed(rep, "C03.2", site, "translated end = translated start + resource size / ratio", end,
+    typed(rep, "C03.2", site, "translated end = translated start + resource size / ratio" + where, end,
           c.norm(('bin', '+', P("(resource_info.start // window_range.step) + window_range.start"), size)), 'amP', leaves)
-    typed(rep, "C03.2", site, "translated width = resource width * ratio", width, P("resource_info.width * window_range.step"), 'bm', leaves,
-          depends=[("resource_info", "resources behind one window can have different widths (a sparse window further down narrows them), "
+    typed(rep, "C03.2", site, "translated width = resource width * ratio" + where, width, P("resource_info.width * window_range.step"), 'bm', leaves,
+          depends=[(RI, "resources behind one window can have different widths (a sparse window further down narrows them), "
                     "so a width computed from the window alone is wrong for every resource narrower than the window's map"),
-                   ("window_range", "the width is scaled by the ratio of the window")])
-    rep.check(res == P("resource_info.resource"), "C03.1", site, "the translated info describes the same resource", f"resource is {ir.show(res)}",
+                   (WR, "the width is scaled by the ratio of the window")])
+    rep.check(res == P("resource_info.resource") or (where.strip() == "(find_resource)" and res == ('name', 'resource')), "C03.1", site, "the translated info describes the same resource" + where, f"resource is {ir.show(res)}",
               nontrivial=False)
     want_path = P("resource_info.path if window_name is None else (window_name, *resource_info.path)")
     alt_path = P("(window_name, *resource_info.path) if window_name is not None else resource_info.path")
-    rep.check(path in (want_path, alt_path), "C03.5", site, "path = child's path, with the window's name prefixed unless the window is anonymous",
+    rep.check(path in (want_path, alt_path), "C03.5", site, "path = child's path, with the window's name prefixed unless the window is anonymous" + where,
               f"path is {ir.show(path)[:120]}")
+
+
+def deref_tables(c, e):
+    """self._windows[id(X)][0] / self._resources[id(X)][0] is X: the identity-keyed tables record the object itself first (C02.4)."""
+    tabs = (c.parse("self._windows"), c.parse("self._resources"))
+
+    def f(x):
+        if x[0] == 'sub' and x[2] == ('const', 0) and x[1][0] == 'sub' and x[1][1] in tabs and x[1][2][0] == 'call' and \
+                x[1][2][1] == ('name', 'id') and len(x[1][2][2]) == 1:
+            return x[1][2][2][0]
+        return None
+    return c.norm(ir.subst(e, f))
 
 
 def all_resources(rep, idx):
@@ -270,9 +307,12 @@ def all_resources(rep, idx):
     atoms = (is_res, is_win)
     other = []
     for v, frm, gen, ln in c.t.yields:
-        v = c.norm(v)
+        v = deref_tables(c, c.norm(v))
         tab = guard_table(c, gen, ln, atoms)
-        if v[0] == 'call' and ir.show(v[1]).endswith("ResourceInfo"):
+        if v[0] == 'call' and ir.show(v[1]).endswith("ResourceInfo") and not translate_owned(idx) and \
+                any(fr[0] == 'for' and fr[1] != L.id for fr in gen):
+            through.append((v, tab, gen))               # built in place, inside the loop over the window's own resources
+        elif v[0] == 'call' and ir.show(v[1]).endswith("ResourceInfo"):
             direct.append((v, tab, gen))
         elif v[0] == 'call' and v[1] == c.parse("self._translate"):
             through.append((v, tab, gen))
@@ -305,10 +345,14 @@ def all_resources(rep, idx):
     if ok2:
         v, tab_, gen = through[0]
         inner = [fr[1] for fr in gen if fr[0] == 'for' and fr[1] != L.id]
-        child_ok = len(inner) == 1 and c.norm(c.t.loops[inner[0]].iter) == c.parse("obj.all_resources()", env)
+        child_ok = len(inner) == 1 and deref_tables(c, c.norm(c.t.loops[inner[0]].iter)) == c.parse("obj.all_resources()", env)
         rep.check(child_ok, "C03.3", site, "children are taken from the window's own all_resources(), in its order",
                   f"inner loop iterates {[ir.show(c.norm(c.t.loops[i].iter)) for i in inner]}")
-        if child_ok:
+        if child_ok and not translate_owned(idx) and ir.show(v[1]).endswith("ResourceInfo") and len(v[2]) == 5:
+            ri = ('item', inner[0], ())
+            translate_checks(rep, c, site, v[2], {"resource_info": ri, "window": obj, "window_name": c.parse("self._windows[id(obj)][1]", env),
+                                                  "window_range": rng}, where=" (all_resources)")
+        elif child_ok:
             ri = ('item', inner[0], ())
             want = c.norm(('call', c.parse("self._translate"), (ri, obj, c.parse("self._windows[id(obj)][1]", env), rng), ()))
             rep.form(v == want, "C03.1", site, "children are translated with the window object, its own name and its own stored range",
@@ -362,6 +406,10 @@ def find_resource(rep, idx):
     rets = [(c.norm(v), gen, ln) for v, gen, ln in c.t.returns]
     direct = [r for r in rets if r[0][0] == 'call' and ir.show(r[0][1]).endswith("ResourceInfo")]
     through = [r for r in rets if r[0][0] == 'call' and r[0][1] == c.parse("self._translate")]
+    if not translate_owned(idx):
+        # built in place: the result produced inside the loop over the windows plays the part of the _translate() call
+        through = [r for r in direct if any(fr[0] == 'for' for fr in r[1])]
+        direct = [r for r in direct if r not in through]
     own = c.parse("id(resource) in self._resources")
     ok = len(direct) == 1 and [(c.norm(fr[1]), fr[2]) for fr in direct[0][1] if fr[0] == 'pyif'] == [(own, True)]
     order_ok = True
@@ -402,9 +450,13 @@ def find_resource(rep, idx):
         # _translate(info, *record): the records of the window table are (window, name, range) triples wherever they are stored
         if v[0] == 'call' and len(v[2]) == 2 and v[2][1] == ('star', ('item', Lw, ())) and table_arity(c.fi.cls, "_windows") == 3:
             v = (v[0], v[1], (v[2][0], w, wn, wr), v[3])
-        want = c.norm(('call', c.parse("self._translate"),
-                       (('call', ('attr', w, 'find_resource'), (('name', 'resource'),), ()), w, wn, wr), ()))
-        rep.form(v == want, "C03.1", site, "a resource found behind a window is translated with that window, its name and its stored range",
+        child = ('call', ('attr', w, 'find_resource'), (('name', 'resource'),), ())
+        want = c.norm(('call', c.parse("self._translate"), (child, w, wn, wr), ()))
+        if not translate_owned(idx) and v[0] == 'call' and ir.show(v[1]).endswith("ResourceInfo") and len(v[2]) == 5:
+            translate_checks(rep, c, site, v[2], {"resource_info": c.norm(child), "window": w, "window_name": wn, "window_range": wr},
+                             where=" (find_resource)")
+        else:
+          rep.form(v == want, "C03.1", site, "a resource found behind a window is translated with that window, its name and its stored range",
                  f"returns {ir.show(v)[:160]}",
                  wrong=translate_wrong(v, ('call', ('attr', w, 'find_resource'), (('name', 'resource'),), ()), w, wr))
     # a miss in one window moves on to the next one
@@ -550,5 +602,5 @@ def authority(rep, idx):
                    if isinstance(n, ast.Attribute) and n.attr == fn and f.qual != q}
         if callers and callers <= want:
             sites = [s for s in sites if s != q] + sorted(callers)
-    rep.check(set(sites) <= want and "MemoryMap._translate" in sites and len(set(sites)) >= 2, "C03.1", "memory.py", "ResourceInfo is built only by _translate and the two local-resource sites",
+    rep.check(set(sites) <= want and ("MemoryMap._translate" in sites or not translate_owned(idx)) and len(set(sites)) >= 2, "C03.1", "memory.py", "ResourceInfo is built only by _translate and the two local-resource sites",
               f"construction sites: {sorted(set(sites))}")
